@@ -13,6 +13,18 @@ import (
 const modulePath = "github.com/containers/nri-plugins"
 
 func (ex *Exec) call(fr *frame, st *State, reach *Term, c *ssa.CallCommon, instr ssa.Instruction, exits *[]*exit) (Value, *Term) {
+	if callee := c.StaticCallee(); callee != nil {
+		switch callee.String() {
+		case "sort.Slice", "sort.SliceStable":
+			// the slice travels boxed in an `any`: recover it from the MakeInterface operand
+			if mi, ok := c.Args[0].(*ssa.MakeInterface); ok {
+				if slt, ok := types.Unalias(mi.X.Type()).Underlying().(*types.Slice); ok {
+					sortPermutes(ex, st, reach, ex.term(fr, mi.X), slt.Elem())
+					return nil, reach
+				}
+			}
+		}
+	}
 	var args []Value
 	for _, a := range c.Args {
 		args = append(args, ex.operand(fr, a))
@@ -44,6 +56,11 @@ func (ex *Exec) callWithValues(fr *frame, st *State, reach *Term, c *ssa.CallCom
 					ex.safeOblige(fr, reach, nonnil, "nil-func", instr)
 				}
 				ex.vc.Assume(reach, nonnil)
+				if _, pure := fc.Opts["pure"]; pure {
+					if rv := ex.applyPureFuncValue(n, f, args); rv != nil {
+						return rv, reach
+					}
+				}
 				return ex.applyIfaceContract(fr, st, reach, c, fc, f, args, instr)
 			}
 		}
@@ -372,7 +389,7 @@ func (ex *Exec) builtin(fr *frame, st *State, reach *Term, b *ssa.Builtin, c *ss
 			var xs []*Term
 			marr := ex.sliceElems(st, slt.Elem(), more)
 			for i := int64(0); i < n.Int64(); i++ {
-				xs = append(xs, Select(marr, vc.Arith("+", vc.SliceOff(more), vc.IntConst(i), types.Typ[types.Int])))
+				xs = append(xs, vc.SliceAt(marr, vc.SliceOff(more), vc.IntConst(i)))
 			}
 			return ex.appendVals(st, reach, slt.Elem(), st0, xs), reach
 		}
@@ -386,9 +403,9 @@ func (ex *Exec) builtin(fr *frame, st *State, reach *Term, b *ssa.Builtin, c *ss
 		a1 := ex.sliceElems(st, slt.Elem(), more)
 		n0, n1 := vc.SliceLen(st0), vc.SliceLen(more)
 		vc.Assume(reach, Forall([]*Term{iq}, Implies(And(vc.Cmp("<=", vc.IntConst(0), iq, it), vc.Cmp("<", iq, n0, it)),
-			Eq(Select(narr, iq), Select(a0, vc.Arith("+", vc.SliceOff(st0), iq, it))))))
+			Eq(Select(narr, iq), vc.SliceAt(a0, vc.SliceOff(st0), iq)))))
 		vc.Assume(reach, Forall([]*Term{iq}, Implies(And(vc.Cmp("<=", vc.IntConst(0), iq, it), vc.Cmp("<", iq, n1, it)),
-			Eq(Select(narr, vc.Arith("+", n0, iq, it)), Select(a1, vc.Arith("+", vc.SliceOff(more), iq, it))))))
+			Eq(Select(narr, vc.Arith("+", n0, iq, it)), vc.SliceAt(a1, vc.SliceOff(more), iq)))))
 		ex.setComp(st, cmp, Store(ex.comp(st, cmp, cs), r, narr))
 		nl := vc.Arith("+", n0, n1, it)
 		return vc.MkSlice(r, vc.IntConst(0), nl, nl), reach
@@ -858,6 +875,15 @@ func (ex *Exec) scanCall(fr *frame, c *ssa.CallCommon, ms *modSet, depth int, vi
 		return
 	case *ssa.Function:
 		fn = v
+		if name := v.String(); name == "sort.Slice" || name == "sort.SliceStable" {
+			if mi, ok := c.Args[0].(*ssa.MakeInterface); ok {
+				if slt, ok := types.Unalias(mi.X.Type()).Underlying().(*types.Slice); ok {
+					c2, s2 := ex.sliceComp(slt.Elem())
+					ms.add(c2, s2)
+					return
+				}
+			}
+		}
 	default:
 		switch cv := ex.scanValue(fr, c.Value).(type) {
 		case *Closure:
@@ -979,4 +1005,27 @@ func (ex *Exec) contractMods(fc *FuncContract, fn *ssa.Function, ms *modSet) {
 			ms.addFresh(k, s)
 		}
 	}
+}
+
+// applyPureFuncValue: a call through a value of a function type declared `pure`: an uninterpreted
+// function of the function value and the arguments, no effect on the heap.
+func (ex *Exec) applyPureFuncValue(n *types.Named, f *Term, args []Value) Value {
+	sig, ok := n.Underlying().(*types.Signature)
+	if !ok || sig.Results().Len() != 1 {
+		return nil
+	}
+	targs := []*Term{f}
+	sorts := []string{"Int"}
+	for _, a := range args {
+		t, ok := a.(*Term)
+		if !ok {
+			return nil
+		}
+		targs = append(targs, t)
+		sorts = append(sorts, string(t.Sort))
+	}
+	name := "apply." + typeKey(n)
+	rs := ex.vc.SortOf(sig.Results().At(0).Type())
+	ex.vc.declare(name, fmt.Sprintf("(declare-fun %s (%s) %s)", name, strings.Join(sorts, " "), rs))
+	return App(name, rs, targs...)
 }
